@@ -934,7 +934,9 @@ func (e *episode) mkQuery(f []string) (*query, func() (string, error)) {
 			if err != nil {
 				return "", err
 			}
-			return canonAtt(v), nil
+			ans := canonAtt(v)
+			hx.Scribble(v) // hostile caller: the answer is the caller's private copy
+			return ans, nil
 		}
 	case "pro":
 		slot := n(2)
@@ -944,7 +946,9 @@ func (e *episode) mkQuery(f []string) (*query, func() (string, error)) {
 			if err != nil {
 				return "", err
 			}
-			return canonPro(v), nil
+			ans := canonPro(v)
+			hx.Scribble(v) // hostile caller: the answer is the caller's private copy
+			return ans, nil
 		}
 	case "agg":
 		slot, rslot, r, comm := n(2), n(3), n(4), n(5)
@@ -955,7 +959,9 @@ func (e *episode) mkQuery(f []string) (*query, func() (string, error)) {
 			if err != nil {
 				return "", err
 			}
-			return canonAggVal(v), nil
+			ans := canonAggVal(v)
+			hx.Scribble(v) // hostile caller: the answer is the caller's private copy
+			return ans, nil
 		}
 	case "con":
 		slot, sub, root := n(2), n(3), n(4)
@@ -965,7 +971,9 @@ func (e *episode) mkQuery(f []string) (*query, func() (string, error)) {
 			if err != nil {
 				return "", err
 			}
-			return canonCon(v), nil
+			ans := canonCon(v)
+			hx.Scribble(v) // hostile caller: the answer is the caller's private copy
+			return ans, nil
 		}
 	default:
 		panic("bad await kind")
